@@ -12,7 +12,7 @@ VERIF = os.path.dirname(os.path.dirname(os.path.abspath(__file__)))
 HARNESS = os.path.join(VERIF, "harness")
 ASAN_BIN = os.path.join(HARNESS, "target-asan", "x86_64-unknown-linux-gnu", "asan", "lmcheck")
 ENV = dict(os.environ, CARGO_NET_OFFLINE="true", ASAN_OPTIONS="detect_leaks=0:abort_on_error=1:symbolize=1")
-PROPS = ["C01", "C04", "C05", "C07"]
+PROPS = ["C01", "C02", "C03", "C04", "C05", "C07", "C08"]
 
 
 def build_asan():
@@ -119,8 +119,8 @@ def main():
     cov = ev["coverage"]
     cov["evaluations"] += cases
     cov["asan_proptest"] = {"cases_run_under_asan": cases, "per_property": per_prop,
-                            "what": "the generated checks of C01 (scoring), C04 (striping histories), C05 (encoding), C07 (maxima) rebuilt with -Zsanitizer=address and debug assertions, run in child processes; a child killed by the sanitizer is a C06 violation"}
-    cov["rule"] += " || [asan-proptest] C01/C04/C05/C07 generators re-run under AddressSanitizer (counted in evaluations, not in distinct_nontrivial)"
+                            "what": "the generated checks of C01 (scoring), C02/C03 (scanner), C04 (striping histories), C05 (encoding), C07 (maxima), C08 (8-bit kernels) rebuilt with -Zsanitizer=address and debug assertions, run in child processes; a child killed by the sanitizer is a C06 violation"}
+    cov["rule"] += " || [asan-proptest] C01/C02/C03/C04/C05/C07/C08 generators re-run under AddressSanitizer (counted in evaluations, not in distinct_nontrivial)"
     ev["violations"] = ev.get("violations", 0) + violations
     ev["wall_s"] = round(time.time() - t0, 3)
     ev["tier"] = tier
